@@ -7,6 +7,7 @@ a save."""
 import re
 from facts import is_node, walk, where, show
 import flow
+import report
 import paths
 from paths import Event, render
 import schema
@@ -89,9 +90,20 @@ def strip_targs(name):
     return out
 
 
+# reference arrays whose *positions* carry meaning (entry i belongs to entry i of a sibling table in another block): dropping
+# an empty slot while writing shifts every later entry against that table (or whose slot count the library itself consults),
+# so the generic acceptance of
+# NiBlockRefArray::CleanInvalidRefs ("empty references carry no information") does not cover them
+POSITIONAL_REF_ARRAYS = {"boneRefs": "NiSkinData::bones / BSSkinBoneData::boneXforms are indexed by the same bone number",
+                         "childRefs": "the sort's Oblivion child ordering (SortGraph) and callers consult childRefs.GetSize(), which "
+                                      "counts empty slots before the first save and not after it"}
+
+
 def accepted_reason(fnname, path, op):
     f = strip_targs(fnname)
     leaf = [c for c in path if isinstance(c, str) and not c.startswith("[")]
+    if f == "nifly::NiBlockRefArray::CleanInvalidRefs" and any(c in POSITIONAL_REF_ARRAYS for c in leaf):
+        return None
     leaf = leaf[-1] if leaf else "*"
     for key in ((f, leaf, op), (f, "*", op), (f, leaf, "*")):
         if key in ACCEPTED:
@@ -440,6 +452,53 @@ def run(F, chk):
                               "data: saving changes the model" % (fn["name"], owner, name))
     chk.extra["finalize_member_writes"] = nw
     chk.floor(R3, 5)
+
+    # ---- R2.8 the string table is final when the blocks are
+    R8 = chk.rule("R2.8", "in NifFile::Save the header string table is rebuilt (UpdateHeaderStrings) after the last step that can delete "
+                          "blocks: a table built before the pruning of unreferenced blocks still lists the strings of blocks the same "
+                          "save then deletes, so save #1 carries strings that save #2 (built after they are gone) does not")
+    HDRN = "nifly::NiHeader"
+    upd = {g["id"] for g in F.fns.values() if g["name"] == HDRN + "::UpdateHeaderStrings"}
+    dele = {g["id"] for g in F.fns.values() if g["name"] in (HDRN + "::DeleteBlock", HDRN + "::DeleteBlockByType")}
+    if not upd or not dele:
+        raise report.Broken("R2.8: NiHeader::UpdateHeaderStrings / DeleteBlock not found")
+    saves = [g for g in F.fns.values() if g["name"] == "nifly::NifFile::Save" and g.get("body") and "ostream" in g["id"]]
+    if len(saves) != 1:
+        raise report.Broken("R2.8: NifFile::Save(std::ostream&, ...) not found")
+    sv = F.inl(saves[0])
+    late = []
+
+    def _reaches(n, targets):
+        ts = set(F.call_targets(n) or [])
+        return any(t in targets or (F.reachable([t]) & targets) for t in ts if t in F.fns)
+
+    class StrOrder(flow.Flow):
+        def on_node(self, n, st):
+            if st is None or n["k"] not in ("Call", "OpCall"):
+                return st
+            del_, upd_ = _reaches(n, dele), _reaches(n, upd)
+            if del_ and ("D", "strings built") in st and not upd_:
+                late.append(n)
+            if del_ and upd_:
+                # a step that both prunes and rebuilds: judged by its own order (FinalizeData rebuilds last)
+                return st | {("D", "strings built")}
+            if upd_:
+                return st | {("D", "strings built")}
+            return st
+
+    so = StrOrder(F, sv)
+    so.run()
+    seen8 = set()
+    for n in late:
+        if id(n) in seen8:
+            continue
+        seen8.add(id(n))
+        chk.violation("R2.8", "C02/R2.8:Save:%s" % (n.get("short") or n.get("op")), where(saves[0], n),
+                      "NifFile::Save calls %s, which can delete blocks, after the header string table was rebuilt for this save: the "
+                      "strings of the blocks it deletes are still written, and the next save of the same model writes a different "
+                      "table" % (n.get("fn") or n.get("short")))
+    chk.instance(R8, ok=not late, sample={"fn": "NifFile::Save", "deleting_calls_after_string_rebuild": len(seen8)})
+    chk.floor(R8, 1)
 
     # ---- R2.7 membership mirrors in the pre-write pipeline
     R7 = chk.rule("R2.7", "in the pre-write pipeline, a local list that is asked `contains(list, x)` to decide whether x still has "
